@@ -362,31 +362,17 @@ func (p *Program) frameCheck(e *Exec, ct *Contract, fn *ssa.Function, env0 *Spec
 	}
 	allowed := map[string]*allow{}
 	for _, a := range ct.Assigns {
-		x, err := parseSpecExpr(a)
-		if err != nil {
-			e.fail("assigns entry %q: %v", a, err)
-		}
-		var ad *Addr
-		if se, ok := x.(*ast.StarExpr); ok {
-			ad = e.addrOfPtr(env0.eval(se.X))
-		} else {
-			ad = env0.addrExpr(x).Addr
-		}
-		t := typeAt(ad.Typ, ad.Path)
-		fp, _ := pathKey(ad.Typ, ad.Path)
-		for _, l := range leavesOf(t) {
-			key := ad.Key + fp + l.Path
-			al := allowed[key]
+		for _, tg := range e.assignTargets(a, env0) {
+			al := allowed[tg.key]
 			if al == nil {
 				al = &allow{}
-				allowed[key] = al
+				allowed[tg.key] = al
 			}
-			if ad.Kind == RHeap {
-				al.refs = append(al.refs, ad.Ref)
+			if tg.heap {
+				al.refs = append(al.refs, tg.ref)
 			} else {
 				al.whole = true
 			}
-			// slices: the backing array contents may change too when the entry says so (x[*])
 		}
 	}
 	var keys []string
@@ -415,10 +401,20 @@ func (p *Program) frameCheck(e *Exec, ct *Contract, fn *ssa.Function, env0 *Spec
 		}
 		var goal Term
 		if al == nil {
-			goal = c.eq(t, t0)
+			// objects allocated by this call are not part of the caller-visible frame
+			exp := t0
+			if t0.Sort.K == SArray && t0.Sort.Idx.K == SRef {
+				for _, ref := range e.fresh {
+					exp = c.store(exp, ref, c.sel(t, ref))
+				}
+			}
+			goal = c.eq(t, exp)
 		} else {
 			exp := t0
 			for _, ref := range al.refs {
+				exp = c.store(exp, ref, c.sel(t, ref))
+			}
+			for _, ref := range e.fresh {
 				exp = c.store(exp, ref, c.sel(t, ref))
 			}
 			goal = c.eq(t, exp)
@@ -657,4 +653,50 @@ func (p *Program) useLemma(e *Exec, ct *Contract, src string, env *SpecEnv, reac
 	p.mu.Lock()
 	p.usedContracts[pkg+".lemma "+name] = true
 	p.mu.Unlock()
+}
+
+type assignTarget struct {
+	key  string
+	heap bool
+	ref  Term
+	addr *Addr
+	typ  types.Type
+}
+
+// assignTargets resolves an `assigns` entry to memory cells: p.f (a field, with everything
+// below it), *p (a whole object), pkg.global, or s[*] (the elements of slice s)
+func (e *Exec) assignTargets(src string, env *SpecEnv) []assignTarget {
+	src = strings.TrimSpace(src)
+	var out []assignTarget
+	if strings.HasSuffix(src, "[*]") {
+		x, err := parseSpecExpr(strings.TrimSuffix(src, "[*]"))
+		if err != nil {
+			e.fail("assigns entry %q: %v", src, err)
+		}
+		sv := env.eval(x)
+		st, ok := sv.Typ.Underlying().(*types.Slice)
+		if !ok {
+			e.fail("assigns entry %q: not a slice", src)
+		}
+		for _, l := range leavesOf(st.Elem()) {
+			out = append(out, assignTarget{key: "[]" + typeKey(st.Elem()) + l.Path, heap: true, ref: sv.L[0]})
+		}
+		return out
+	}
+	x, err := parseSpecExpr(src)
+	if err != nil {
+		e.fail("assigns entry %q: %v", src, err)
+	}
+	var ad *Addr
+	if se, ok := x.(*ast.StarExpr); ok {
+		ad = e.addrOfPtr(env.eval(se.X))
+	} else {
+		ad = env.addrExpr(x).Addr
+	}
+	t := typeAt(ad.Typ, ad.Path)
+	fp, _ := pathKey(ad.Typ, ad.Path)
+	for _, l := range leavesOf(t) {
+		out = append(out, assignTarget{key: ad.Key + fp + l.Path, heap: ad.Kind == RHeap, ref: ad.Ref, addr: ad, typ: t})
+	}
+	return out
 }
